@@ -39,7 +39,7 @@ COMMON_TB = [
 PROPS = {
     "C06": {
         "lean_modules": ["Tulz.Props.C06"],
-        "theorems": ["Tulz.C06_flat_nodup", "Tulz.C06_notify", "Tulz.C06_notify_ids_once", "Tulz.C06_history", "Tulz.C06_history_sorted"],
+        "theorems": ["Tulz.C06_flat_nodup", "Tulz.C06_notify", "Tulz.C06_notify_ids_once", "Tulz.C06_history", "Tulz.C06_history_sorted", "Tulz.C06_history_once"],
         "trusted_base": COMMON_TB,
         "assumptions": ["every notify passes arguments of the signature the reached subjects were subscribed with (the API's own precondition)",
                         "callbacks do not call back into the router (re-entrancy is C10)"],
@@ -47,7 +47,7 @@ PROPS = {
     "C13": {
         "lean_modules": ["Tulz.Props.C13"],
         "theorems": ["Tulz.C13_shrink_invisible", "Tulz.C13_shrink_exact", "Tulz.C13_keeps_live", "Tulz.C13_removes_only",
-                     "Tulz.C13_full_wildcard", "Tulz.C13_exists", "Tulz.C13_prefix_closed", "Tulz.C13_depth"],
+                     "Tulz.C13_full_wildcard", "Tulz.C13_exists", "Tulz.C13_prefix_closed", "Tulz.C13_depth", "Tulz.C13_history"],
         "trusted_base": COMMON_TB,
         "assumptions": ["liveness of a key uses the code's notion hasSubscriptions(): an invalidated observer that was not yet removed lazily by a notify still counts",
                         "handles whose node was erased by shrink are never used again"],
@@ -322,9 +322,10 @@ def valid(case):
 NAME_POOL = ["a", "ab", "b", "ba", "aa", "abb"]
 
 
-def gen_regex(rng, depth=0):
-    """the subset `literal . * + ? [set] | ( )` over the letters a, b"""
-    def atom():
+def gen_regex(rng):
+    """the subset `literal . * + ? [set] | ( )` over the letters a, b; at most one level of grouping and
+    at most 14 characters (std::regex backtracks exponentially on deeply nested quantifiers)"""
+    def atom(depth):
         k = rng.below(10)
         if k < 4:
             return rng.pick(["a", "b"])
@@ -332,24 +333,28 @@ def gen_regex(rng, depth=0):
             return "."
         if k < 7:
             return rng.pick(["[ab]", "[a-b]", "[^a]", "[^b]", "[b]"])
-        if depth < 2:
+        if depth < 1:
             return "(" + alt(depth + 1) + ")"
         return rng.pick(["a", "b"])
 
-    def piece():
-        a = atom()
+    def piece(depth):
+        a = atom(depth)
         k = rng.below(10)
         return a + ("*" if k < 2 else "+" if k < 3 else "?" if k < 5 else "")
 
-    def seq():
-        return "".join(piece() for _ in range(1 + rng.below(3)))
+    def seq(depth):
+        return "".join(piece(depth) for _ in range(1 + rng.below(3 - depth)))
 
-    def alt(d):
-        s = seq()
+    def alt(depth):
+        s = seq(depth)
         if rng.chance(1, 3):
-            s += "|" + seq()
+            s += "|" + seq(depth)
         return s
-    return alt(depth)
+    for _ in range(8):
+        r = alt(0)
+        if len(r) <= 14:
+            return r
+    return "[ab]+"
 
 
 def gen_level(rng, names):
@@ -576,9 +581,9 @@ def run_tie(prop, spec, tier, seed):
     cases += fixed_cases()
     nfixed = len(cases) - ncorpus
     if tier == "quick":
-        cases += [gen_case(rng, 40) for _ in range(2500)]
+        cases += [gen_case(rng, 40) for _ in range(5000)]
     else:
-        cases += [gen_case(rng, 70) for _ in range(40000)]
+        cases += [gen_case(rng, 70) for _ in range(60000)]
     cases = [c for c in cases if valid(c)]
 
     exp, branches = [], {}
@@ -587,7 +592,7 @@ def run_tie(prop, spec, tier, seed):
         exp.append(expected(c, r))
         for b, n in r.branch.items():
             branches[b] = branches.get(b, 0) + n
-    impl = seqtie.run_stream(binary, cases, "rt reset", timeout=3000)
+    impl = seqtie.run_stream(binary, cases, "rt reset", timeout=900 if tier == "quick" else 3000)
     model_raw = seqtie.run_stream(None, [with_dump(c) for c in cases], "rt reset", is_driver=True, timeout=3000)
     model = [raw[1::2] for raw in model_raw]
     dumps = [raw[0::2] for raw in model_raw]
